@@ -77,6 +77,10 @@ impl Tags {
     ) -> Result<&'a Tags, Error> {
         let numtags = parts.len();
         let length = Self::output_size_needed(parts);
+        if length > 65535 {
+            // the format's length and offset fields are 16 bits wide
+            return Err(InnerError::OutOfRange(length).into());
+        }
         if output.len() < length {
             return Err(InnerError::BufferTooSmall(length).into());
         }
